@@ -8,6 +8,9 @@ Oracle (mc.ref.gpref_b, 50 digits): prior N(m, K), likelihood N(A x, S):
     evidence = log N(y; A m, J) (+ m/2 log 2 pi: either convention), gradient = Richardson of the 50-digit evidence.
 The mean axis includes "N": a user-defined MeanFunction subclass (written here, the way the class documentation invites)
 that is non-linear in its hyper-parameters, m(x) = exp(a) sin(b x_0 + c); same 50-digit oracle.
+Further user-written means, all non-uniform in x, with 0 / 1 / 1 / 2 hyper-parameters: 0.3 cos(1.3 x_0), a (1 + x_0), a sin(2 x_0), a + b x_0^2
+(specs U0, U1, S1, U2; same oracles, own small block of the lattice and of the call histories): every count 0..3 of mean hyper-parameters is met by
+a user class, 1..3 also by a library class.
 Data units: the same problems with y, y_err and the model matrix multiplied by 1e-9, 1e-6, 1e6, 1e9 (posterior unchanged,
 evidence shifted), y_err {spread 0.1 x (1,2,5,0.5,3), uniform, mixed}: same oracle on the same floats, same derived tolerances.
 
@@ -150,9 +153,64 @@ def user_mean_class():
     return _USER["cls"]
 
 
+# further user-written means, all NON-UNIFORM in x, so that every number of mean hyper-parameters 0..3 is met by a user class
+# (library: ConstantMean 1, LinearMean 2 (d=1) / 3 (d=2), QuadraticMean 3 (d=1); the library has no mean without hyper-parameters):
+#   U0  m(x) = 0.3 cos(1.3 x_0)   (no hyper-parameter)      U1  m(x) = a (1 + x_0)       S1  m(x) = a sin(2 x_0)      U2  m(x) = a + b x_0^2
+USER_MEANS = ["U1", "S1", "U2", "U0"]
+USER_NPAR = {"U0": 0, "U1": 1, "S1": 1, "U2": 2, "N": 3}
+
+
+def user_profile_class(mspec):
+    """user sub-classes of MeanFunction whose profile is fixed up to 0, 1 or 2 hyper-parameters (written the way the abstract
+    base class invites: n_params, hyperpar_labels, bounds, pass_spatial_data, build_mean, mean_and_gradients)"""
+    key = "cls-" + mspec
+    if key not in _USER:
+        from inference.gp.mean import MeanFunction
+
+        def terms(x0, t):
+            # -> (mean, [d mean / d theta_j])
+            if mspec == "U0":
+                return 0.3 * np.cos(1.3 * x0), []
+            if mspec == "U1":
+                return t[0] * (1.0 + x0), [1.0 + x0]
+            if mspec == "S1":
+                return t[0] * np.sin(2.0 * x0), [np.sin(2.0 * x0)]
+            if mspec == "U2":
+                return t[0] + t[1] * x0**2, [np.ones_like(x0), x0**2]
+            raise HarnessError(mspec)
+
+        class ProfileMean(MeanFunction):
+            def __init__(self, hyperpar_bounds=None):
+                self.bounds = hyperpar_bounds
+                self.n_params = USER_NPAR[mspec]
+                self.hyperpar_labels = ["%s parameter %d" % (mspec, j) for j in range(self.n_params)]
+
+            def pass_spatial_data(self, x):
+                self.x0 = np.array(x[:, 0], dtype=float)
+                self.n_data = x.shape[0]
+
+            def estimate_hyperpar_bounds(self, y):
+                self.bounds = [(-10.0, 10.0)] * self.n_params
+
+            def __call__(self, q, theta):
+                return terms(np.asarray(q, dtype=float)[..., 0], theta)[0]
+
+            def build_mean(self, theta):
+                return terms(self.x0, theta)[0]
+
+            def mean_and_gradients(self, theta):
+                return terms(self.x0, theta)
+
+        ProfileMean.__name__ = "ProfileMean_" + mspec
+        _USER[key] = ProfileMean
+    return _USER[key]
+
+
 def lib_mean(mspec):
     from checks import c11
 
+    if mspec in USER_MEANS:
+        return user_profile_class(mspec)()
     return user_mean_class()() if mspec == "N" else c11.lib_mean(mspec)
 
 
@@ -161,6 +219,10 @@ def mean_theta(mspec, im, s):
 
     if mspec == "N":
         return [N_A[im], N_B[(im + 1) % 3] / s["rng"][0], N_C[(im + 2) % 3]]
+    if mspec in USER_MEANS:
+        xa = max(abs(s["xmin"][0]), abs(s["xmin"][0] + s["rng"][0]))  # largest |x_0|: the mean stays of the order of the data
+        c = s["ybar"] + c11.MEAN_C[im] * s["sy"]
+        return {"U0": [], "U1": [c / (1.0 + xa)], "S1": [c], "U2": [c, (c11.MEAN_Q[(im + 1) % 3] + 0.2) * s["sy"] / xa**2]}[mspec]
     return c11.mean_theta(mspec, im, s)
 
 
@@ -661,6 +723,20 @@ def run(ck):
                                 npoints += len(thetas)
                                 for blk in chunks(thetas, 9 if quick else 27):
                                     cases.append({"problem": prob, "kernel": kspec, "mean": mspec, "thetas": blk})
+    # ---------------------------------------------------------------- user-written means with 0, 1, 1, 2 hyper-parameters, non-uniform in x
+    nuser = 0
+    for ui, mspec in enumerate(USER_MEANS):
+        for si, shape in enumerate(SHAPES):
+            for d in (1, 2):
+                rot = seed + ui + si + d
+                combos = [(KERNELS[rot % 4], AKINDS[(rot // 2) % 3])] if quick else [(k, AKINDS[(rot + ki) % 3]) for ki, k in enumerate(KERNELS)]
+                for kspec, akind in combos:
+                    prob = make_problem(shape, akind, ("uniform", "mixed")[rot % 2], d, pk1[rot % 3], seed)
+                    thetas = hp_lattice(kspec, mspec, prob, (9, rot) if quick else (3, rot))
+                    npoints += len(thetas)
+                    nuser += len(thetas)
+                    for blk in chunks(thetas, 9):
+                        cases.append({"problem": prob, "kernel": kspec, "mean": mspec, "thetas": blk})
     # ---------------------------------------------------------------- data in units far from 1 (y, y_err, model matrix x 1e-9 .. 1e9)
     nscaled = 0
     for ci, (scale, ekind, shape) in enumerate(itertools.product(DATA_SCALES, ("spread", "uniform", "mixed"), SHAPES)):
@@ -677,9 +753,11 @@ def run(ck):
     nhist = 0
     sets = ["diag", "split"]
     for ki, kspec in enumerate(KERNELS):
-        for mi, mspec in enumerate(MEANS):
+        for mi, mspec in enumerate(MEANS + USER_MEANS):
             rot = seed + ki + 2 * mi
-            layouts = [rot % 4] if quick else range(4)
+            if mspec in USER_MEANS and quick and ki != (seed + mi) % len(KERNELS):
+                continue  # quick: one (rotating) kernel for each of the further user-written means
+            layouts = [rot % 4] if quick else ([rot % 4, (rot + 1) % 4] if mspec in USER_MEANS else range(4))
             for si in layouts:
                 r2 = rot + si
                 prob = make_problem(SHAPES[si], AKINDS[r2 % 3], ("uniform", "mixed")[r2 % 2], 1 + (r2 // 2) % 2, pk1[r2 % 3], seed)
@@ -737,6 +815,10 @@ def run(ck):
         "cond(I + K A^T S^-1 A)); data units: the same problems with y, y_err and the model matrix multiplied by 1e-9, 1e-6, 1e6, 1e9 x y_err {0.1 x (1,2,5,0.5,3) "
         "'spread', uniform, mixed 1e-3..1} x the four layouts (kernel, mean, matrix kind, dimension rotating in quick; all kernels x {C,L} in thorough), a Latin ninth of the "
         "hyper-parameter product each, against the 50-digit closed form on the same floats with the same conditioning-derived tolerances (keys .../data-unit=small|large,yerr=...); means include a user-defined MeanFunction subclass exp(a) sin(b x_0 + c), non-linear in its hyper-parameters. "
+        "user means non-uniform in x with 0 / 1 / 1 / 2 hyper-parameters {0.3 cos(1.3 x_0), a (1 + x_0), a sin(2 x_0), a + b x_0^2} x the four matrix layouts x d in {1,2} x kernels "
+        "(quick: one rotating kernel, matrix kind, error pattern and position kind; thorough: all four kernels) x a Latin ninth (thorough: third) of the hyper-parameter product, every oracle of the "
+        "lattice (closed-form mean / covariance, mean-only = full path, evidence, evidence gradient; gradient keys evidence/mean-U1|S1|U2/gradient), so that each count 0,1,2,3 of mean "
+        "hyper-parameters is met by a user class and 1,2,3 by a library class (C; L d=1; L d=2); the same user means in the call histories (quick: one rotating kernel each). "
         "history: kernels x means x model-matrix layouts (quick: one rotating layout, thorough all four) x hyper-parameter triples "
         "{all blocks differ, mean-only / covariance-only differences} (quick: one, rotating) x caller conventions {fresh array per call, ONE array "
         "overwritten in place between calls, the same and the returned arrays overwritten by the caller}: every sequence of 1, 2 and 3 calls over "
@@ -753,13 +835,15 @@ def run(ck):
     )
     ck.assume("interleaving: 2 or 3 live inverter objects, <= 4 calls (<= 3 for three objects), 2 hyper-parameter vectors per object; the caller gives each object its own kernel / mean instances")
     ck.assume("call histories are limited to 3 calls over 4 methods x 3 hyper-parameter vectors on one object; agreement with a fresh object is required bit-for-bit or to 1e-12 of the largest entry of the result")
-    ck.assume("the user-defined mean function is the one written in checks/c17.py (exp(a) sin(b x_0 + c), stateless); other user classes are represented by it")
+    ck.assume("the user-defined mean functions are the ones written in checks/c17.py (exp(a) sin(b x_0 + c); 0.3 cos(1.3 x_0); a (1 + x_0); a sin(2 x_0); a + b x_0^2; all stateless, functions of the first coordinate): "
+              "0, 1, 1, 2 and 3 hyper-parameters; other user classes are represented by them; the library itself has no mean function without hyper-parameters")
     ck.assume("data units: y, y_err and the model matrix are scaled together (1e-9 .. 1e9); the parameters and the prior stay of order one")
     ck.assume("continuous inputs are represented by the listed finite lattices; at most 5 parameters / 5 data (50-digit reference); points with cond(A K A^T + S) or cond(I + K A^T S^-1 A) > 1e10 are skipped and counted")
     ck.assume("the diagonal stabiliser of smooth kernels is accepted as any relative inflation in [0,1e-10] of the kernel diagonal (measured from the model's prior covariance)")
     ck.assume("optimize_hyperparameters (Nelder-Mead) is not part of the statement and is not exercised")
     ck.extra["lattice_points"] = npoints
     ck.extra["lattice_points_scaled_units"] = nscaled
+    ck.extra["lattice_points_user_profile_means"] = nuser
     ck.extra["history_blocks"] = len(hist)
     ck.extra["histories"] = nhist
     ck.extra["interleave_blocks"] = len(inter)
